@@ -169,6 +169,40 @@ def replay_recorded(rnd):
         rec.replay(rnd)
 
 
+# ---- ambient decimal context -----------------------------------------------------------------------
+# The decimal context is thread-wide state the caller of athlib never passes in: an application that embeds the library may
+# have set `getcontext().prec = 6` (the tutorial's example), a directed rounding mode (money), or the FloatOperation trap
+# (strict mode).  Every fifth monitored call therefore runs the REAL function under one of these contexts (the oracle side
+# always computes under the harness's own default context); a function whose answer moves with the context shows up at the
+# clause that judges the answer, and in the determinism monitor as "same call, different outcome".  The list holds only
+# contexts an application plausibly sets and the unchanged tree answers identically under (see DESIGN section 8, wave 7).
+import decimal as _decimal
+
+HOSTILE = [
+    ('prec=6', dict(prec=6)),
+    ('rounding=ROUND_DOWN', dict(rounding=_decimal.ROUND_DOWN)),
+    ('rounding=ROUND_UP', dict(rounding=_decimal.ROUND_UP)),
+    ('prec=9,rounding=ROUND_HALF_UP', dict(prec=9, rounding=_decimal.ROUND_HALF_UP)),
+    ('rounding=ROUND_FLOOR,traps=FloatOperation', dict(rounding=_decimal.ROUND_FLOOR, traps=[_decimal.FloatOperation, _decimal.InvalidOperation,
+                                                                                             _decimal.DivisionByZero, _decimal.Overflow])),
+    ('prec=5,rounding=ROUND_CEILING', dict(prec=5, rounding=_decimal.ROUND_CEILING)),
+]
+AMB = {'on': False, 'n': 0, 'current': None, 'force': None, 'period': 5,
+       'ctxs': [(n, _decimal.Context(**kw)) for n, kw in HOSTILE]}
+
+
+def hostile_context(n):
+    """(name, Context) for the n-th monitored call, or None (4 of 5 calls keep the default context)"""
+    if AMB['force'] is not None:
+        for nm, c in AMB['ctxs']:
+            if nm == AMB['force']:
+                return nm, c
+        return None
+    if not AMB['on'] or n % AMB['period'] != 3:
+        return None
+    return AMB['ctxs'][(n // AMB['period']) % len(AMB['ctxs'])]
+
+
 def monitor(owner, name, on_event, rebind_aliases=True, pure=True):
     """Wrap owner.name (module or class attribute); on_event(args, kwargs, outcome)."""
     original = getattr(owner, name) if not isinstance(owner, type) else owner.__dict__[name]
@@ -182,8 +216,26 @@ def monitor(owner, name, on_event, rebind_aliases=True, pure=True):
     def wrapper(*a, **k):
         if det is not None and DET['careless']:
             det.careless(raw, a, k)
+        AMB['n'] += 1
+        hc = hostile_context(AMB['n']) if AMB['current'] is None else None
+        if hc is None:
+            return judged(a, k)
+        AMB['current'] = hc[0]
+        ctx = DET['ctx']
+        if ctx is not None:
+            ctx.counters['ambient.decimal-context-calls'] += 1
         try:
-            r = raw(*a, **k)
+            return judged(a, k, hc[1])
+        finally:
+            AMB['current'] = None
+
+    def judged(a, k, dctx=None):
+        try:
+            if dctx is None:
+                r = raw(*a, **k)
+            else:
+                with _decimal.localcontext(dctx):
+                    r = raw(*a, **k)
         except Exception as e:  # noqa
             o = Outcome('raise', e)
             if det is not None:
